@@ -179,8 +179,7 @@ def do_call(dep, c, cfg):
       tr.stop()
       return ('ok',)
     if kind == 'CheckES':
-      tr.check_early_stopping()
-      return ('ok',)  # advisory value not compared
+      return ('ok', bool(tr.check_early_stopping()))
     if kind == 'DeleteTrial':
       tr.delete()
       return ('ok',)
@@ -207,7 +206,6 @@ class C08(runner.Check):
           'families); non-trivial iff >=1 error path and >=1 algorithm call')
   assumptions = [
       'simnet models gRPC status semantics; the thorough tier calibrates it against a real loopback grpc.server',
-      'the advisory early-stopping answer is not compared',
       'all three deployments are configured with the same early-stop recycle period',
   ]
   runs = {'quick': 1600, 'thorough': 16000}
@@ -215,7 +213,8 @@ class C08(runner.Check):
   chunk = 10
   probes = ['probe.error-path', 'probe.algorithm-call', 'probe.resource-not-found', 'probe.finished-study-suggest',
             'probe.complete-twice', 'probe.out-of-space-add', 'probe.metadata-on-missing-trial',
-            'probe.call-after-delete-study', 'probe.long-learning-curve']
+            'probe.call-after-delete-study', 'probe.long-learning-curve', 'probe.early-stop-answered',
+            'probe.early-stop-answer-true']
 
   def setup_tier(self, tier):
     if tier != 'thorough':
@@ -245,6 +244,16 @@ class C08(runner.Check):
     while len(ops) < n:
       k = rng.choice(kinds)
       a = {}
+      if rng.random() < 0.05:
+        # early-stopping question asked twice within the recycle period (second answer is the stored one),
+        # then once more after the period has passed
+        sel = {'pref': 'active', 'i': rng.randrange(3)}
+        ops += [['Suggest', {'n': rng.choice([1, 1, 2]), 'worker': 0}],
+                ['AddMeasurement', {'trial': sel, 'v': rng.randrange(6), 'step': 1}],
+                ['CheckES', {'trial': sel}], ['CheckES', {'trial': sel}]]
+        if rng.random() < 0.5:
+          ops += [['Advance', {'s': rng.choice([30.0, 61.0, 200.0])}], ['CheckES', {'trial': sel}]]
+        continue
       if k == 'Suggest':
         a = {'n': rng.choice([1, 1, 2, 3]), 'worker': rng.randrange(3)}
       elif k == 'Complete':
@@ -301,6 +310,9 @@ class C08(runner.Check):
     deleted = False
     for step, op in enumerate(plan['ops']):
       kind, a = op[0], dict(op[1])
+      if kind == 'Advance':
+        det.clk.advance(a["s"])
+        continue
       c = dict(a, kind=kind)
       if 'trial' in a:
         view = O.View(deps[0].servicer, owners=(0,))
@@ -341,6 +353,10 @@ class C08(runner.Check):
         res.bump('probe.out-of-space-add')
       if kind == 'TrialMD' and st and isinstance(st['trials'], dict) and c['trial'] not in st['trials']:
         res.bump('probe.metadata-on-missing-trial')
+      if kind == 'CheckES' and out[0] == 'ok':
+        res.bump('probe.early-stop-answered')
+        if out[1]:
+          res.bump('probe.early-stop-answer-true')
       if kind == 'LongCurve' and out[0] == 'ok':
         res.bump('probe.long-learning-curve')
       if kind == 'DeleteStudy' and out[0] == 'ok':
